@@ -211,7 +211,7 @@ class Interp:
     def call_func(self, f, args):
         self.tick()
         self.stats['calls'] += 1
-        if len(self.frames) > 60:
+        if len(self.frames) > MAX_FRAMES[0]:
             raise Budget()
         scope = {}
         for p, a in zip(f.params, args):
@@ -655,6 +655,9 @@ def coercible(a, pt):
     if t == INT and pt == BYTE:
         return shrinkable(a)
     return False
+
+
+MAX_FRAMES = [60]      # call depth at which the reference gives up (budget); the C01 scale programs raise it
 
 
 def run_reference(prog, argv, ws=2, checked=True, budget=200_000, max_flips=5000, stack_words=400):
